@@ -96,7 +96,7 @@ def merge_results(rs):
            'samples': [], 'ub_notes': set(), 'assert_counts': {}}
     for r in rs:
         if r['status'] != 'ok':
-            if r['status'] == 'stopped' and r['error'] == 'violation limit': pass
+            if r['status'] == 'stopped' and r['error'] == 'violation limit': tot['stopped_early'] = tot.get('stopped_early', 0) + 1
             else: tot['status'] = 'error'; tot['errors'].append(r['error'])
         for k, v in r['stats'].items(): tot['stats'][k] = tot['stats'].get(k, 0) + v
         tot['funcs'].update(r['funcs']); tot['ub_notes'].update(r['ub_notes'])
